@@ -305,7 +305,8 @@ def main():
         print(l)
     if harness_errors:
         print('machinery error: %s' % (harness_errors[0].get('error', '')[-800:],))
-        return 2
+        if not nviol:
+            return 2
     print('%s %s seed=%d: %d theorems audited (%d ok), %d cases, %d ops, %d oracle calls, %d distinct; %.1fs -> %s' % (
         pid, tier, seed, len(names), len(okl), stats['cases'] if stats else 0, stats['ops'] if stats else 0,
         stats['oracle_calls'] if stats else 0, nd, wall, 'VIOLATION' if nviol else 'ok'))
